@@ -23,7 +23,7 @@ WORK = os.path.join(ROOT, ".work")
 HARNESS_DIR = os.path.join(ROOT, "harness")
 CFG = "--cfg excsn_fibre_verif"
 
-TIER_CAP = {"quick": 900, "thorough": 5400}  # per-harness wall cap (s)
+TIER_CAP = {"quick": 600, "thorough": 5400}  # per-harness wall cap (s)
 MAX_JOBS = int(os.environ.get("VERIF_JOBS", "12"))
 
 
@@ -91,34 +91,255 @@ def prepare_pkg(pkg, tag):
   return dst
 
 
-def run_kani(pkgdir, harnesses, cap, jobs, extra=None, logname="kani.log"):
+CBMC_FLAGS = ["--no-malloc-may-fail", "--no-undefined-shift-check", "--no-signed-overflow-check", "--nan-check",
+              "--no-self-loops-to-assumptions", "--no-pointer-primitive-check", "--object-bits", "16",
+              "--sat-solver", "cadical", "--slice-formula", "--verbosity", "8"]
+MEM_CAP_GB = int(os.environ.get("VERIF_MEM_GB", "14"))
+
+
+def build_goto(pkgdir, harnesses):
+  """cargo kani --only-codegen: compiles /repo's current tree + the harness package into one goto
+  binary per harness (Kani's own goto-instrument passes included). -> (rc, wall, {harness: (file, unwind)}, log)"""
   tdir = os.path.join(pkgdir, "target")
-  out_json = os.path.join(pkgdir, "result.json")
-  if os.path.exists(out_json):
-    os.remove(out_json)
-  cmd = ["cargo", "kani", "--target-dir", tdir, "--output-format", "terse",
-         "-Z", "unstable-options", "--export-json", out_json,
-         "--harness-timeout", "%ds" % cap, "-j", str(jobs)]
+  cmd = ["cargo", "kani", "--target-dir", tdir, "--only-codegen"]
   for h in harnesses:
     cmd += ["--harness", h]
-  if extra:
-    cmd += extra
   t0 = time.time()
-  with open(os.path.join(pkgdir, logname), "w") as lf:
+  logp = os.path.join(pkgdir, "build.log")
+  with open(logp, "w") as lf:
     try:
-      p = subprocess.run(cmd, cwd=pkgdir, env=env_for_kani(), stdout=lf, stderr=subprocess.STDOUT,
-                         timeout=cap * (1 + (len(harnesses) - 1) // max(jobs, 1)) + 900)
+      p = subprocess.run(cmd, cwd=pkgdir, env=env_for_kani(), stdout=lf, stderr=subprocess.STDOUT, timeout=3600)
       rc = p.returncode
     except subprocess.TimeoutExpired:
       rc = -9
-  wall = time.time() - t0
-  data = None
-  if os.path.exists(out_json):
+  out = {}
+  for mf in glob.glob(os.path.join(tdir, "kani", "*", "debug", "build", "*", "*", "out", "*.kani-metadata.json")):
     try:
-      data = json.load(open(out_json))
+      md = json.load(open(mf))
     except Exception:
-      data = None
-  return rc, wall, data, os.path.join(pkgdir, logname)
+      continue
+    for h in md.get("proof_harnesses", []):
+      short = h["pretty_name"].split("::")[-1]
+      g = h["goto_file"].replace(".symtab.out", ".out")
+      if os.path.exists(g):
+        out[short] = (g, h.get("attributes", {}).get("unwind_value"), h["pretty_name"], h.get("original_file"), h["mangled_name"])
+  return rc, time.time() - t0, out, logp
+
+
+RES_RE = re.compile(r"^\[(.+)\.([a-zA-Z_\-]+)\.(\d+)\] line (\d+) (.*): (SUCCESS|FAILURE|UNKNOWN|ERROR)$")
+
+
+WAKER_ROLES = [
+  (r"^std::task::Waker::wake$", "wake"), (r"^std::task::Waker::wake_by_ref$", "wake_by_ref"),
+  (r"^<std::task::Waker as std::clone::Clone>::clone$", "clone"), (r"^<std::task::Waker as std::ops::Drop>::drop$", "drop"),
+]
+
+
+def fp_restrictions(pkgdir, gobj):
+  """RawWakerVTable calls in core::task::wake are plain function-pointer calls; CBMC resolves those by
+  signature, i.e. to every `unsafe fn(*const ())` in the program (all drop glue), which creates spurious
+  recursion. harness/<pkg>/fp_restrict.json names the waker vtable functions that exist in this package:
+  {"wake": [regex...], "wake_by_ref": [...], "clone": [...], "drop": [...]} (regexes on demangled names).
+  CBMC asserts at each restricted call that the pointer is one of the listed targets, so a waker outside
+  the list is reported, not ignored."""
+  cfgp = os.path.join(pkgdir, "fp_restrict.json")
+  if not os.path.exists(cfgp):
+    return []
+  cfg = json.load(open(cfgp))
+  p = subprocess.run(["goto-instrument", "--show-goto-functions", gobj], stdout=subprocess.PIPE, stderr=subprocess.DEVNULL, text=True)
+  funcs = re.findall(r"^(\S.*?) /\* (\S+) \*/$", p.stdout, re.M)
+  args = []
+  for pretty, mangled in funcs:
+    for rx, role in WAKER_ROLES:
+      if re.match(rx, pretty):
+        targets = [m2 for p2, m2 in funcs if any(re.search(t, p2) for t in cfg.get(role, []))]
+        if targets:
+          args += ["--restrict-function-pointer", "%s.function_pointer_call.1/%s" % (mangled, ",".join(sorted(set(targets))))]
+  return args
+
+
+def finish_goto(pkgdir, name, gfile, mangled):
+  """The remaining steps of Kani's goto pipeline after --only-codegen (same commands kani-driver runs),
+  plus the waker function-pointer restriction (see fp_restrictions)."""
+  out = gfile[:-4] + ".v.out"
+  with open(os.path.join(pkgdir, "goto_%s.log" % name), "w") as lf:
+    steps = [
+      ["goto-cc", gfile, "--function", mangled, "-o", out],
+      ["goto-instrument", "--add-library", "--no-malloc-may-fail", out, out],
+    ]
+    for c in steps:
+      if subprocess.run(c, stdout=lf, stderr=subprocess.STDOUT).returncode != 0:
+        return None
+    fpr = fp_restrictions(pkgdir, out)
+    steps = []
+    if fpr:
+      steps.append(["goto-instrument"] + fpr + [out, out])
+    steps += [
+      ["goto-instrument", "--generate-function-body-options", "assert-false-assume-false", "--generate-function-body", ".*",
+       "--drop-unused-functions", out, out],
+      ["goto-instrument", "--ensure-one-backedge-per-target", out, out],
+    ]
+    for c in steps:
+      if subprocess.run(c, stdout=lf, stderr=subprocess.STDOUT).returncode != 0:
+        return None
+  return out
+
+
+def unwindset_for(pkgdir, gfile):
+  """Per-loop bounds: harness/<pkg>/unwindset.json = [{"fn_re": <regex on the demangled function that owns the
+  loop>, "unwind": N}, ...]; resolved against this build's loop ids (goto-instrument --show-loops)."""
+  cfgp = os.path.join(pkgdir, "unwindset.json")
+  if not os.path.exists(cfgp):
+    return None
+  cfg = json.load(open(cfgp))
+  p = subprocess.run(["goto-instrument", "--show-loops", gfile], stdout=subprocess.PIPE, stderr=subprocess.DEVNULL, text=True)
+  pairs = []
+  cur = None
+  for line in p.stdout.splitlines():
+    m = re.match(r"^Loop (\S+):$", line)
+    if m:
+      cur = m.group(1)
+      continue
+    m = re.match(r"^\s+file .* function (.*)$", line)
+    if m and cur:
+      fn = m.group(1)
+      for c in cfg:
+        if re.search(c["fn_re"], fn):
+          pairs.append("%s:%d" % (cur, c["unwind"]))
+          break
+      cur = None
+  return ",".join(pairs) if pairs else None
+
+
+def run_cbmc_one(pkgdir, name, gfile, unwind, cap, mangled):
+  import resource
+  logp = os.path.join(pkgdir, "cbmc_%s.log" % name)
+  t00 = time.time()
+  gfile = finish_goto(pkgdir, name, gfile, mangled)
+  if gfile is None:
+    return {"id": name, "duration_s": time.time() - t00, "fails": [], "unwind": [], "covers_sat": [], "covers_unsat": [],
+            "undetermined": 0, "checks": 0, "funcs": [], "stats": {}, "error": "goto pipeline failed", "rc": -1,
+            "log": logp, "status": "Error"}
+  uws = unwindset_for(pkgdir, gfile)
+  cmd = ["cbmc"] + CBMC_FLAGS + (["--unwind", str(unwind)] if unwind else []) + (["--unwindset", uws] if uws else []) + [gfile]
+
+  def lim():
+    b = MEM_CAP_GB << 30
+    resource.setrlimit(resource.RLIMIT_AS, (b, b))
+
+  t0 = time.time()
+  timed_out = False
+  with open(logp, "w") as lf:
+    try:
+      p = subprocess.run(cmd, stdout=lf, stderr=subprocess.STDOUT, timeout=cap, preexec_fn=lim)
+      rc = p.returncode
+    except subprocess.TimeoutExpired:
+      rc, timed_out = -9, True
+  wall = time.time() - t0
+  r = {"id": name, "duration_s": wall, "fails": [], "unwind": [], "covers_sat": [], "covers_unsat": [],
+       "undetermined": 0, "checks": 0, "funcs": [], "stats": {}, "error": None, "rc": rc, "log": logp}
+  funcs = set()
+  covers = []
+  reachable = set()
+  cur_file = ""
+  in_results = False
+  seen_verdict = False
+  with open(logp, errors="replace") as f:
+    for line in f:
+      line = line.rstrip("\n")
+      if not in_results:
+        m = re.match(r"Runtime (Symex|Solver|Convert SSA|Post-process|Postprocess Equation|decision procedure): ([0-9.eE+-]+)s", line)
+        if m:
+          k = {"Symex": "runtime_symex_s", "Solver": "runtime_solver_s", "Convert SSA": "runtime_convert_ssa_s",
+               "Post-process": "runtime_post_process_s", "Postprocess Equation": "runtime_postprocess_equation_s",
+               "decision procedure": "runtime_decision_procedure_s"}[m.group(1)]
+          r["stats"][k] = r["stats"].get(k, 0) + float(m.group(2))
+          continue
+        m = re.match(r"size of program expression: (\d+) steps", line)
+        if m:
+          r["stats"]["size_program_expression"] = int(m.group(1))
+          continue
+        m = re.match(r"Generated (\d+) VCC\(s\), (\d+) remaining", line)
+        if m:
+          r["stats"]["vccs_generated"] = int(m.group(1))
+          r["stats"]["vccs_remaining"] = int(m.group(2))
+          continue
+        m = re.match(r"(\d+) variables, (\d+) clauses", line)
+        if m:
+          r["stats"]["sat_variables"] = int(m.group(1))
+          r["stats"]["sat_clauses"] = int(m.group(2))
+          continue
+        if line.startswith("** Results:"):
+          in_results = True
+        continue
+      if line.startswith("VERIFICATION "):
+        seen_verdict = True
+        continue
+      m = RES_RE.match(line)
+      if not m:
+        m2 = re.match(r"^(\S+) function (.*)$", line)
+        if m2:
+          cur_file = m2.group(1)
+        continue
+      fn, cls, _n, ln, desc, st = m.groups()
+      idm = re.match(r"^\[?(KANI_CHECK_ID_[^\]\s]*)\]?\s*", desc)
+      cid = idm.group(1) if idm else None
+      desc = re.sub(r"^\[KANI_CHECK_ID_[^\]]*\]\s*", "", desc)
+      if cls == "reachability_check":
+        if st == "FAILURE" and cid:
+          reachable.add(cid)
+        continue
+      if "fibre" in fn:
+        funcs.add(re.sub(r"::<[^>]*>", "", fn)[:140])
+      if cls == "cover":
+        covers.append((strip_q(desc), st == "FAILURE", cid))
+        continue
+      r["checks"] += 1
+      if st == "FAILURE":
+        item = {"desc": strip_q(desc), "function": fn, "file": cur_file, "line": ln, "category": cls}
+        if cls == "unwind" or "unwinding assertion" in desc or "VERIF-BOUND" in desc:
+          r["unwind"].append(item)
+        else:
+          r["fails"].append(item)
+      elif st != "SUCCESS":
+        r["undetermined"] += 1
+  r["funcs"] = sorted(funcs)
+  # a witness (by description) is satisfied if any instance is; unsatisfied only if some instance is
+  # reachable and none is satisfied; instances in code this instantiation never reaches are ignored
+  sat = set(d for d, ok, _ in covers if ok)
+  unsat = set(d for d, ok, cid in covers if not ok and d not in sat and (cid is None or cid in reachable))
+  r["covers_sat"] = sorted(sat)
+  r["covers_unsat"] = sorted(unsat)
+  r["covers_unreachable"] = sorted(set(d for d, ok, cid in covers) - sat - unsat)
+  if timed_out:
+    r["status"] = "Timeout"
+  elif not seen_verdict or rc not in (0, 10):
+    r["status"] = "Error"
+    r["error"] = "cbmc rc=%s (out of memory / crash / no verdict)" % rc
+  elif r["fails"] or r["unwind"]:
+    r["status"] = "Failure"
+  else:
+    r["status"] = "Success"
+  if r["status"] in ("Success", "Failure") and not r["fails"]:
+    try:
+      os.remove(logp)  # keep disk use low; failing / inconclusive logs are kept until the work dir is removed
+    except OSError:
+      pass
+  return r
+
+
+def run_pool(pkgdir, gotos, names, cap, jobs):
+  from concurrent.futures import ThreadPoolExecutor
+  res = {}
+  with ThreadPoolExecutor(max_workers=jobs) as ex:
+    futs = {}
+    for n in names:
+      if n in gotos:
+        g, unw, pretty, ofile, mangled = gotos[n]
+        futs[n] = ex.submit(run_cbmc_one, pkgdir, n, g, unw, cap, mangled)
+    for n, f in futs.items():
+      res[n] = f.result()
+  return res
 
 
 def strip_q(s):
@@ -387,19 +608,22 @@ def main():
       random.Random(seed).shuffle(run_names)
     jobs = max(1, min(MAX_JOBS, len(run_names)))
     log("[%s] package %s: %d harnesses, tier %s, cap %ds, jobs %d" % (pid, pkg, len(names), a.tier, cap, jobs))
-    rc, wall, data, logp = run_kani(pdir, run_names, cap, jobs)
-    res = classify(data, run_names)
-    results[pkg] = res
-    if data is None:
-      tail = subprocess.run(["tail", "-30", logp], stdout=subprocess.PIPE, text=True).stdout
-      log("INCONCLUSIVE package=%s build-or-run-failed rc=%s\n%s" % (pkg, rc, tail))
-      inconclusive.append({"package": pkg, "reason": "no result (build failure or global timeout) rc=%s" % rc})
+    rc, bwall, gotos, logp = build_goto(pdir, run_names)
+    missing = [n for n in run_names if n not in gotos]
+    if rc != 0 or missing:
+      tail = subprocess.run("grep -E '^error' -A12 %s | head -60; tail -5 %s" % (logp, logp), shell=True, stdout=subprocess.PIPE, text=True).stdout
+      log("INCONCLUSIVE package=%s build failed rc=%s missing=%s\n%s" % (pkg, rc, missing[:5], tail))
+      inconclusive.append({"package": pkg, "reason": "build failure rc=%s" % rc, "missing": missing})
+      results[pkg] = {}
       continue
+    log("  built %d goto binaries in %.0fs" % (len(gotos), bwall))
+    res = run_pool(pdir, gotos, run_names, cap, jobs)
+    results[pkg] = res
     relfile = {x[0]: x[2] for x in sel}
     for n in run_names:
       r = res.get(n)
       if r is None:
-        log("INCONCLUSIVE harness=%s no verdict (timeout %ds or not run)" % (n, cap))
+        log("INCONCLUSIVE harness=%s not run" % n)
         inconclusive.append({"harness": n, "reason": "no verdict within cap"})
         continue
       if n.startswith("zz_twin"):
@@ -407,14 +631,15 @@ def main():
           log("INCONCLUSIVE harness=%s vacuity twin did not fail" % n)
           inconclusive.append({"harness": n, "reason": "twin assert(false) not reported"})
         continue
-      line = "  %-44s %-8s %6.1fs checks=%d covers=%d/%d" % (
-        n, r["status"], r["duration_s"], r["checks"], len(r["covers_sat"]), len(r["covers_sat"]) + len(r["covers_unsat"]))
+      line = "  %-44s %-8s %6.1fs checks=%d covers=%d/%d symex=%.0fs sat=%.0fs" % (
+        n, r["status"], r["duration_s"], r["checks"], len(r["covers_sat"]), len(r["covers_sat"]) + len(r["covers_unsat"]),
+        r["stats"].get("runtime_symex_s", 0), r["stats"].get("runtime_solver_s", 0))
       log(line)
       if r["unwind"]:
         log("INCONCLUSIVE harness=%s unwinding assertion failed: %s" % (n, r["unwind"][0]["function"]))
         inconclusive.append({"harness": n, "reason": "unwinding assertion", "where": r["unwind"][0]})
       if r["status"] not in ("Success", "Failure"):
-        log("INCONCLUSIVE harness=%s status=%s" % (n, r["status"]))
+        log("INCONCLUSIVE harness=%s status=%s %s" % (n, r["status"], r.get("error") or ("cap %ds" % cap)))
         inconclusive.append({"harness": n, "reason": "status " + r["status"]})
       if r["fails"]:
         new = []
